@@ -255,7 +255,14 @@ def execute(case):
                 ent["data"] = open(p2, "rb").read()
             tree[name] = ent
         events = parse_log(logp)
-        return {"step2": step2, "rc": rc, "stdout": out or b"", "stderr": err.decode("utf-8", "replace"), "events": events, "tree": tree, "orig": orig,
+        heap_peak = None
+        try:
+            for line in open(logp, "r", errors="replace"):
+                if line.startswith("H peak "):
+                    heap_peak = int(line.split()[2])
+        except OSError:
+            pass
+        return {"heap_peak": heap_peak, "step2": step2, "rc": rc, "stdout": out or b"", "stderr": err.decode("utf-8", "replace"), "events": events, "tree": tree, "orig": orig,
                 "wall": time.time() - t0, "out_size": out_size, "prefix_len": len(prefix)}
     finally:
         shutil.rmtree(d, ignore_errors=True)
@@ -333,6 +340,9 @@ def replay(r):
     if r["judge"] == "judge_list":
         import xz_list
         judge = xz_list.judge_list
+    elif r["judge"] == "judge_mem":
+        import xz_mem
+        judge = xz_mem.judge_mem
     elif r["judge"] == "judge_c19":
         import xz_c19
         judge = xz_c19.judge_c19
